@@ -36,6 +36,11 @@ class Model(object):
                 m, a, kw = sub['method'], sub['args'], sub['kwargs']
                 if m == 'big':
                     a = (a[0], tuple(a[1:]), canon_value(kw))
+                elif kw:
+                    # arguments passed by keyword: the reference takes them in the order of the method's parameters
+                    from .clustersim import Sim
+                    names = Sim.KWFORMS[('kv', m)]
+                    a = tuple(a) + tuple(kw[n] for n in names[len(a):])
                 r = kv_apply(self.d, m, a)
             else:
                 c = self.cons[sub['target']]
